@@ -24,18 +24,25 @@ PROP = {'title': 'Vector, dim and matrix arithmetic obeys the exact ring and mod
  'compile_probes': [{'name': 'vector_less_mixed_storage', 'source': 'harness/C14_probe_less.cpp', 'flags': []}],
  'deadline': {'quick': 300, 'thorough': 1500},
  'rule': 'nested loops over explicit families, nothing sampled. 2x2: all 256 matrices over {-1,0,1,2} (unary laws, scalars -9..9), all '
-         '65536 pairs (+,-,==,product in 4 storage combinations, (AB)^T=B^T A^T, det/adjugate multiplicativity), all 256^3 triples '
-         '(associativity, left/right distributivity; announced as family indices i,j,k in odometer order, entry p of matrix i is '
-         '((i / 4^p) % 4) - 1 in row-major order). 3x3: all 3^9 matrices over {-1,0,1} for unary laws (transpose, determinant, adjugate, '
-         'A adj(A) = det(A) I, inverse of unimodular matrices, delete_row_and_column, access); pairs over all matrices with <= 3 non-zero '
-         'entries from {-1,1} + permutation + elementary + one distinct-entry matrix (850^2); triples over the <= 2 non-zero sub-family '
-         '(188^3). 4x4: unary over all matrices with <= 4 non-zero entries from {-1,1} + elementary + distinct (34k), pairs over <= 2 '
-         'non-zero (600^2), triples over <= 1 non-zero + permutation + elementary (95^3); translation/scaling for all (x,y,z) in [-9,9]^3 '
-         'and all pairs in [-3,3]^3. Rectangular shapes 1x2..4x3 (all matrices over {-1,0,1} for 2x3/3x2/1xN/Nx1, <= 2 non-zero + '
-         'distinct for 2x4..4x3). Vectors and dims: N=1,2 over [-9,9], N=3,4 over [-2,2], all pairs, triples over [-1,1] (N=1: [-3,3], '
-         'N=2: [-2,2]); quick tier uses the next smaller family of each kind. A case is one (law group, operand tuple); it is '
-         'non-trivial when no operand is zero or the identity / the operands differ / the determinant is non-zero / the compared '
-         'operands are equal or differ in exactly one position (per-group predicate next to each vrt::nontrivial call)',
+         '65536 pairs (+,-,==,!=, product in the 4 static/view storage combinations, (AB)^T=B^T A^T, det and adjugate (anti)multiplicative), '
+         'all 256^3 triples in both tiers (associativity, left/right distributivity; announced as family indices i,j,k, entry p (row-major) of '
+         'matrix i is ((i / 4^p) % 4) - 1). 3x3: unary laws (transpose, determinant, adjugate, A adj(A) = adj(A) A = det(A) I, inverse of '
+         'unimodular matrices, delete_row_and_column, identity, scalar multiples, construction/access/casts) over all 3^9 matrices over '
+         '{-1,0,1} (thorough: all 4^9 over {-1,0,1,2}); pairs over S3 = all matrices with <= 3 (quick: <= 2) non-zero entries from {-1,1} + '
+         'permutation + elementary (I+-E_ij, row scalings by -1,0,2) + one distinct-entry matrix (851, quick 188); triples over the <= 2 '
+         '(quick: <= 1) sub-family (188^3, quick 47^3). 4x4: unary over all matrices with <= 4 (quick: <= 3) non-zero entries from {-1,1} + '
+         'elementary + two distinct-entry matrices (34143), thorough also all 2^16 dense matrices over {0,1}; pairs over the <= 2 (quick: <= 1) '
+         'family (575^2, quick 95^2), triples over the <= 1 family (95^3, quick every third member); translation/scaling for all (x,y,z) in '
+         '[-9,9]^3 (quick [-3,3]^3), their composition and transform_point/direction for all pairs in [-3,3]^3 (quick [-1,1]^3). Rectangular '
+         'shapes 1x2,2x1,1x3,3x1,1x4,4x1,2x3,3x2 (every matrix over {-1,0,1}, a few over {-1,0,1,2}/[-2,2]) and 2x4,4x2,3x4,4x3 (<= 2 non-zero + '
+         'two distinct-entry + all-ones): unary laws, products of all compatible pairs listed in C14_rect*.cpp, sums, matrix*vector, '
+         'associativity through rectangular chains. Matrix*vector for every family member and every vector over [-1,1]^C (2x2: [-9,9]^2). '
+         'Vectors and dims: N=1,2 over [-9,9], N=3 over [-2,2] (thorough: unary [-9,9], pairs [-4,4]), N=4 over [-2,2] (quick pairs '
+         '[-1,1]); all pairs (component-wise + - * /, compound assignment, == != < <= > >=, dot, cross, vector(op)dim, matrix row views as '
+         'operands); triples over [-3,3], [-2,2], [-1,1]^3, [-1,1]^4 (quick {0,1}^4) for the module laws incl. dot(u,cross(v,w)) = '
+         'determinant(rows u,v,w). A case is one (law group, operand tuple); it is non-trivial when no operand is zero or the identity / '
+         'the operands differ / the determinant is non-zero / compared operands are equal or differ in exactly one position (per-group '
+         'predicate next to each vrt::nontrivial call)',
  'assumptions': ['scalar type int only (plus long for the mixed-type operators and structure_cast); entries are small enough that no '
                  'intermediate overflows',
                  'inverse is checked only for unimodular matrices (det = +-1), where 1/det is exact in integer arithmetic; det = 0 is a '
